@@ -20,6 +20,7 @@ let () = Drv_wire.install register get getn geti getb
 let () = Drv_client.install register get getn geti getb
 let () = Drv_srv.install register get getn geti getb
 let () = Drv_xfer.install register get getn geti getb
+let () = Drv_xfer.install_fileseq register get geti getb
 let () = Drv_req.install register get getn geti getb
 let () = Drv_req.install_listing register get geti getb
 let () = Drv_req.install_lin register get
